@@ -118,6 +118,19 @@ def decodeKV (j : Json) : Except String (Str × Str) := do
   | [k, v] => pure (← J.asHex k, ← J.asHex v)
   | _ => throw "annotation: expected [key, value]"
 
+def decodeLifecycle (j : Json) : Except String Lifecycle :=
+  match J.optObj j "lifecycle" with
+  | none => pure {}
+  | some l => do
+    let labels ← (← getArrD l "labels").toList.mapM decodeKV
+    pure { terminating := (J.getBool l "terminating").toOption.getD false,
+           finalizers := ← getHexListD l "finalizers",
+           generation := (J.getInt l "generation").toOption.getD 0,
+           resourceVersion := (J.getHex l "resourceVersion").toOption.getD [],
+           managedFields := (J.getNat l "managedFields").toOption.getD 0,
+           ownerReferences := (J.getNat l "ownerReferences").toOption.getD 0,
+           labels := labels }
+
 def decodeCluster (j : Json) : Except String Cluster := do
   let ann ← match J.optObj j "annotations" with
     | none => pure none
@@ -130,7 +143,8 @@ def decodeCluster (j : Json) : Except String Cluster := do
          secureServing := ← decodeSecureServing (← J.getObj j "secureServing"),
          schemas := ← (← getArrD j "schemas").toList.mapM decodeSchema,
          loggingMode := ← J.getHex j "loggingMode",
-         policies := ← (← getArrD j "policies").toList.mapM decodePolicy }
+         policies := ← (← getArrD j "policies").toList.mapM decodePolicy,
+         lifecycle := ← decodeLifecycle j }
 
 def decodeKnown (j : Json) : Except String Known := do
   pure { name := ← J.getHex j "name", serverNames := ← getHexListD j "serverNames" }
@@ -204,14 +218,23 @@ def doRun (a : Json) : Except String Json := do
   let envAlt := mkEnv t (!t.popFirst)
   let known ← (← getArrD a "known").toList.mapM decodeKnown
   let submitted ← decodeCluster (← J.getObj a "cluster")
-  -- the admission chain: Admit, then Validate; everything below is about the admitted object
-  let c := admitObject submitted
-  let op : Operation := match (J.getStr a "op").toOption with
-    | some "update" => .update
+  let opName := ((J.getStr a "op").toOption).getD "create"
+  let op : Operation := match opName with
+    | "update" => .update
+    | "update-no-old" => .update
+    | "status" => .statusUpdate
     | _ => .create
-  let oldObj ← match J.optObj a "prev" with
+  let stored ← match J.optObj a "prev" with
     | none => pure none
     | some pj => do pure (some (← decodeCluster pj))
+  -- `a.GetOldObject()`
+  let oldObj : Option Cluster := if opName = "update" || opName = "status" then stored else none
+  -- the admission chain: Admit; for a status write the registry's PrepareForUpdate; Validate.
+  -- Everything below is about the object Validate sees (= what is stored when it is accepted).
+  let admitted := admitAdmission op submitted
+  let c : Cluster := match op, stored with
+    | .statusUpdate, some o => prepareForStatusUpdate o admitted
+    | _, _ => admitted
   let k := classes env c
   let createLocal := createClusterInfo env false c
   let createRemote := createClusterInfo env true c
@@ -233,7 +256,18 @@ def doRun (a : Json) : Except String Json := do
   pure <| J.obj [
     ("core", encodeValidate (validateUpstreamCluster env c)),
     ("coreAlt", encodeValidate (validateUpstreamCluster envAlt c)),
-    ("admitted", Json.arr (c.policies.map fun p => J.hex p.strategy).toArray),
+    ("admitted", Json.arr (admitted.policies.map fun p => J.hex p.strategy).toArray),
+    ("endpoints", match createLocal with
+      | .ok ci => J.hexList ci.endpoints
+      | _ => Json.arr #[]),
+    ("resolved", match createLocal with
+      | .ok ci => Json.arr (ci.policies.map fun p => J.obj [
+          ("upstreams", J.hexList (resolveUpstreams ci p)),
+          ("loaded", J.hexList (loadedUpstreams ci p)),
+          ("limiter", match resolveFlowControl ci p with
+            | some fc => Json.arr #[Json.str (encodeFCType fc.typ), J.nat fc.n, J.nat fc.burst]
+            | none => Json.arr #[Json.str "nil", J.nat 0, J.nat 0])]).toArray
+      | _ => Json.arr #[]),
     ("validate", encodeValidate (validateAdmission env known op oldObj c)),
     ("validateAlt", encodeValidate (validateAdmission envAlt known op oldObj c)),
     ("valid", J.bool (valid env known c)),
@@ -254,8 +288,8 @@ def doRun (a : Json) : Except String Json := do
       -- update, the old object
       let others := (known.filter (fun k => env.lower k.name ≠ env.lower c.name)).map Known.toCluster
       let m0 := applyOthers env false [] others
-      let m1 := match op, oldObj with
-        | .update, some o => (match syncUpstreamCluster env false m0 o with
+      let m1 := match opName != "create", stored with
+        | true, some o => (match syncUpstreamCluster env false m0 o with
           | .ok m' => m'
           | .error _ => m0)
         | _, _ => m0
